@@ -86,7 +86,7 @@ Inductive rmode := Parse | IntoBuf.
                   (c) Data::set_position clamps to the data length.
    [pinned_tree_repaired] says which of the two the tree under /repo currently is; it is the only
    line to change when the repair is committed (the driver runs the model with it). *)
-Definition pinned_tree_repaired : bool := false.
+Definition pinned_tree_repaired : bool := true.
 
 Definition read_nonempty_block (m : rmode) (st : state) : state * option frame :=
   match next_nonempty (rest st) (position st) with
